@@ -16,7 +16,7 @@ RULE = ("every (collection type, switch set, option) terminal state of the regis
         "sub-object or optional edge (switch set non-empty)")
 TRUSTED_BASE = ["checks/aoef_common.py: build_world (objects from TLC's description), gen_value (typed scalars from model_fields), "
                 "diff (generic field walker, terms by label), analyse_doc (document definitions/references)"]
-ASSUMPTIONS = ["terms are simple-label terms; feature labels distinct within a list; finite floats; no object repeated within one list",
+ASSUMPTIONS = ["terms are simple-label terms; feature labels distinct within a list; finite floats",
                "acyclic sequence parents"]
 
 def execute(case):
@@ -35,6 +35,18 @@ def extra_observations(work, tier, seed):
     for p in ac.bundled(tier):
         yield ac.run_recorded(p, WORK)
 
+def finding_key(o, clause):
+    """DeepEqual on an Evaluation that lists one clip evaluation twice, where the only difference is the length of that list:
+    the open finding (the document's clip_evaluations list is the definition list, a second mention cannot be written)"""
+    c = o["in"]
+    lst = (c.get("roots") or {}).get("clip_evaluations") or []
+    if clause == "DeepEqual" and c.get("ctype") == "evaluation" and len(set(lst)) < len(lst):
+        diffs = [d for cy in o["out"].get("cycles", []) for d in cy.get("diff", [])]
+        if diffs and all(d.startswith("clip_evaluations:len(") for d in diffs):
+            return "DeepEqual/evaluation-lists-clip-evaluation-twice"
+    return clause
+
+
 def nontrivial(o):
     return len(o["in"].get("sw", [])) > 0
 
@@ -47,6 +59,6 @@ MANIFEST = {
              "through fresh calls, with and without audio directory, and TLC validates type, field-by-field equality (terms by label) "
              "and the document fixpoint. Random graphs ten times larger go through the same validator."),
     "note": ("trusted: TLC; checks/aoef_common.py (object builder, generic diff walker, document analyser); small-scope hypothesis over the "
-             "switch sets; floats finite, simple-label terms, distinct feature labels, no object repeated inside one list"),
+             "switch sets; floats finite, simple-label terms, distinct feature labels"),
     "design_ref": "DESIGN.md section 4 C01",
 }
